@@ -765,6 +765,7 @@ func c13enc(r *Run, rng *Rng, pw string, n, k int, nWrong int) {
 		if third, terr := c13Mscfb(enc); terr != nil || !bytes.Equal(third["EncryptedPackage"], doc.streams["EncryptedPackage"]) || !bytes.Equal(third["EncryptionInfo"], doc.streams["EncryptionInfo"]) {
 			structSig, structWhat = "cfb:mscfb-vs-ref", fmt.Sprintf("mscfb and the reference reader disagree on Encrypt's output (%v)", terr)
 		}
+		c13einfo(r, doc.streams["EncryptionInfo"])
 		if verr := c13verifier(doc.streams["EncryptionInfo"], pw); verr != nil {
 			structSig, structWhat = "enc:verifier", "the EncryptionInfo written by Encrypt does not verify under the password with an independent key derivation: "+verr.Error()
 		}
